@@ -84,12 +84,12 @@ func Run(c *vk.Ctx) {
 		}
 		return out
 	}
-	// Family X: all four kinds. quick: unordered pairs of 2-frame stacks; thorough: all unordered pairs.
+	// Family X: all four kinds. quick: unordered pairs of 2-frame stacks; thorough: (2-frame, 2..3-frame) pairs.
 	// Family Y (quick only; contained in X in the thorough tier): kinds a1 a2 b, a 2-frame stack paired with any
 	// 2..3-frame stack, value sets "distinct" and "mixed signs".
 	shapesX := family(sigma)
 	shapesY := family(sigma[:3])
-	c.Note(fmt.Sprintf("stack shapes with 2..3 frames, all inline groupings: %d over 4 kinds (a1 a2 b a0), %d over 3 kinds; quick: pairs of 2-frame stacks over 4 kinds x %d value sets + (2-frame, 2..3-frame) pairs over 3 kinds x 2 value sets; thorough: all unordered pairs over 4 kinds x %d value sets; cuts: nodecount 1..n, nodefraction/edgefraction just below/above every distinct cum/edge weight; sort flat|cum; granularity functions|lines; outputs top, tree, dot, dot+call_tree; plus the trim_path/source_path family", len(shapesX), len(shapesY), len(valueSets), len(valueSets)))
+	c.Note(fmt.Sprintf("stack shapes with 2..3 frames, all inline groupings: %d over 4 kinds (a1 a2 b a0), %d over 3 kinds; quick: pairs of 2-frame stacks over 4 kinds x %d value sets + (2-frame, 2..3-frame) pairs over 3 kinds x 2 value sets; thorough: all pairs over 4 kinds in which one stack has 2 frames x %d value sets; cuts: nodecount 1..n, nodefraction/edgefraction just below/above every distinct cum/edge weight; sort flat|cum; granularity functions|lines; outputs top, tree, dot, dot+call_tree; plus the trim_path/source_path family", len(shapesX), len(shapesY), len(valueSets), len(valueSets)))
 	var idx int64
 	run := func(sig []enum.Kind, shapes []enum.Shape, firstTwo, secondTwo bool, vsets []int) bool {
 		for i := range shapes {
@@ -118,7 +118,8 @@ func Run(c *vk.Ctx) {
 		return true
 	}
 	if c.Thorough() {
-		run(sigma, shapesX, false, false, []int{0, 1, 2})
+		// all unordered pairs in which at least one stack has 2 frames (total frames <= 5)
+		run(sigma, shapesX, true, false, []int{0, 1, 2})
 		return
 	}
 	if !run(sigma, shapesX, true, true, []int{0, 1, 2}) {
